@@ -29,6 +29,8 @@ class Env:
         self.clock = 1000
         self.upstream_factory = None
         self.wraps = []             # TLS wrap records
+        self.wrap_faults = {}       # client socket name -> exception raised by the TLS handshake at admission
+        self.os_closed = []         # descriptors handed to os.close() by the executor (remote mode)
         self.events = []            # free-form log
 
     def sock(self, name):
@@ -366,7 +368,29 @@ def install():
     _tl.asyncio = _AsyncioShim
     _tl.multiprocessing = _MpShim
     _h.selectors = _SelectorsShim
+    from proxy.core.base import tcp_server as _ts
+    _ts.wrap_socket = _wrap_client
+    _tl.os = _OsShim
     _install_fuel()
+
+
+def _wrap_client(conn, keyfile, certfile, cafile=None):
+    """TLS termination of an accepted client socket (--key-file/--cert-file): the handshake outcome is scripted per socket name in
+    Env.wrap_faults (an exception instance to raise); otherwise the fake socket itself plays the TLS socket."""
+    env = ENV[0]
+    env.events.append(('wrap_client', conn.name))
+    fault = env.wrap_faults.get(conn.name)
+    if fault is not None:
+        raise fault
+    return conn
+
+
+class _OsShim:
+    """`os` inside proxy.core.work.threadless: only close() is used there (descriptor received from the acceptor in remote mode)."""
+
+    @staticmethod
+    def close(fd):
+        ENV[0].os_closed.append(fd)
 
 
 class Stall(BaseException):
@@ -462,7 +486,7 @@ def pending(conn):
 class Executor:
     """A real ThreadlessFdExecutor on FakeLoop/FakeSelector (what the acceptor's event loop does, minus OS)."""
 
-    def __init__(self, flags, env):
+    def __init__(self, flags, env, remote=False):
         from proxy.core.work.fd.fd import ThreadlessFdExecutor
 
         class _Exec(ThreadlessFdExecutor):
@@ -479,7 +503,8 @@ class Executor:
                 return False
 
             def work_queue_fileno(s):
-                return None
+                # remote executors own a pipe to the acceptor and must os.close() every descriptor they received over it
+                return 99 if remote else None
         self.ex = _Exec(flags)
         self.env = env
         self.ex.selector.auto = {}
